@@ -206,6 +206,8 @@ impl Report {
         let mut unlisted: Vec<(String, ViolationClass)> = Vec::new();
         let mut listed: Vec<(KnownFinding, u64)> = Vec::new();
         for (sig, class) in std::mem::take(&mut self.acc.violations) {
+            // signatures recorded by generic code carry a placeholder for the property id
+            let sig = if let Some(rest) = sig.strip_prefix("*/") { format!("{}/{rest}", self.id) } else { sig };
             let k = known
                 .iter()
                 .find(|k| k.status == "open" && k.property == self.id && k.signature == sig);
@@ -372,7 +374,14 @@ where
                         if i >= shards {
                             break;
                         }
-                        f(i, &mut acc);
+                        // a panic that escapes the check's own handling (a library call the check
+                        // did not wrap, or a library result the check's model deems impossible) is
+                        // a verdict about the tree under test, not the end of the run
+                        let r = std::panic::catch_unwind(std::panic::AssertUnwindSafe(|| f(i, &mut acc)));
+                        if let Err(p) = r {
+                            let msg = p.downcast_ref::<&str>().map(|s| s.to_string()).or_else(|| p.downcast_ref::<String>().cloned()).unwrap_or_else(|| "panic".into());
+                            acc.violation("*/uncaught_panic", "a panic escaped while a shard of cases was being evaluated", || json!({"shard": i, "panic": msg.chars().take(300).collect::<String>()}));
+                        }
                     }
                     acc
                 })
